@@ -6,6 +6,7 @@ renames them to the token names of a lexicon and to one of several non-terminal 
 """
 import itertools
 import random
+import re
 
 ABS_TERMS = ['a', 'b', 'c']
 ABS_NTS = ['E', 'X', 'Y', 'Z', 'S', 'Q']      # 'Q' is only used as a ProdSequence symbol
@@ -16,6 +17,14 @@ ABS_NTS = ['E', 'X', 'Y', 'Z', 'S', 'Q']      # 'Q' is only used as a ProdSequen
 # the expected token value is the token text itself.
 # 'seps': separators that may be put between tokens (never changes the non-skipped token list),
 # 'glue': True when the empty separator is allowed between two tokens.
+# A text of a terminal is either a string (the named group spans the whole token: value == text) or a
+# pair [text, value] (the named group is a part of the match, e.g. a quoted identifier: the token value
+# is the group's text, as in the constructor's own example "(?P<DQ_STRING>[^"]*)").
+# 'kw' / 'syn': token names produced by a keyword entry / by a synonym entry;
+# 'kwsyn': {keyword token: plain token} for keyword entries KEYED BY A SYNONYM NAME, i.e. the plain token
+# is itself the new name of one or several regex groups (constructor documentation: synonyms =
+# {name_of_re_pattern: name_of_token}, keywords = {(token_name, value): token_name} - the key of a keyword
+# entry is the name of the TOKEN, that is the name after the synonyms were applied).
 LEXICONS = {
     'plain': {
         'tokenizer': r'(?P<SPACE>\s+)|(?P<a>a)|(?P<b>b)|(?P<c>c)',
@@ -54,8 +63,38 @@ LEXICONS = {
         'glue': True,
         'kw': [], 'syn': [],
     },
+    # keyword entries keyed by a synonym name: two regex groups (plain and back-quoted identifier) are ONE
+    # token NAME; ('NAME', 'let') / ('NAME', 'in') are keywords whichever group matched (the value of a
+    # quoted identifier is the text between the quotes); ('NUM', '0') is a keyword on an un-renamed group.
+    # a = the plain token, b, c = keywords made of it.
+    'kwonsyn1': {
+        'tokenizer': r'(?P<SPACE>\s+)|(?P<IDENT>[A-Za-z_][A-Za-z0-9_]*)|`(?P<QIDENT>[^`]*)`|(?P<NUM>[0-9]+)',
+        'kwargs': {'synonyms': {'IDENT': 'NAME', 'QIDENT': 'NAME'},
+                   'keywords': [['NAME', 'let', 'LET'], ['NAME', 'in', 'IN'], ['NUM', '0', 'ZERO']]},
+        'terms': [('NAME', ['x', 'foo', 'letter', ['`a b`', 'a b'], 'Let', ['`in x`', 'in x'], 'inn', ['`f`', 'f']]),
+                  ('LET', ['let', ['`let`', 'let']]),
+                  ('IN', ['in', ['`in`', 'in']])],
+        'seps': [' ', '\n', '  ', '\t', ' \n '],
+        'glue': False,
+        'kw': ['LET', 'IN', 'ZERO'], 'syn': ['NAME'],
+        'kwsyn': {'LET': 'NAME', 'IN': 'NAME'},
+    },
+    # the same with single-character tokens that may be glued together, the keyword being the FIRST abstract
+    # terminal (a = keyword KEY made of the token LTR = lower- or upper-case letter, b = LTR,
+    # c = keyword NIL made of the renamed single group DIG -> DGT)
+    'kwonsyn2': {
+        'tokenizer': r'(?P<SPACE>\s+)|(?P<LOW>[a-z])|(?P<UP>[A-Z])|(?P<DIG>[0-9])',
+        'kwargs': {'synonyms': {'LOW': 'LTR', 'UP': 'LTR', 'DIG': 'DGT'},
+                   'keywords': [['LTR', 'k', 'KEY'], ['LTR', 'K', 'KEY'], ['DGT', '0', 'NIL']]},
+        'terms': [('KEY', ['k', 'K']), ('LTR', ['x', 'Y', 'q', 'A', 'l']), ('NIL', ['0'])],
+        'seps': [' ', '', '\n', '  ', '\t'],
+        'glue': True,
+        'kw': ['KEY', 'NIL'], 'syn': ['LTR', 'DGT'],
+        'kwsyn': {'KEY': 'LTR', 'NIL': 'DGT'},
+    },
 }
-LEX_ORDER = ['plain', 'kwsyn1', 'skipc', 'kwsyn2']
+LEX_ORDER = ['plain', 'kwsyn1', 'skipc', 'kwsyn2']      # assigned round-robin to the grammars of the plan
+KWONSYN_LEXICONS = ['kwonsyn1', 'kwonsyn2']             # assigned explicitly (family 'kwonsyn')
 
 NAMESETS = [
     ['E', 'X', 'Y', 'Z', 'S', 'Q'],
@@ -83,12 +122,16 @@ def has_skipped_token(sep):
 
 
 def render(lex, names, variant):
-    """token names -> (toks, seps): toks = [[name, text], ...] the expected non-skipped tokens,
+    """token names -> (toks, seps): toks = [[name, value] or [name, value, text], ...] the expected non-skipped
+    tokens (text given when it differs from the value),
     seps = len(toks)+1 separators (lead, between..., trail).  Deterministic in (names, variant)."""
     L = LEXICONS[lex]
     texts = dict(L['terms'])
     rng = random.Random(variant * 7919 + len(names))
-    toks = [[n, rng.choice(texts[n])] for n in names]
+    toks = []
+    for n in names:
+        t = rng.choice(texts[n])
+        toks.append([n, t] if isinstance(t, str) else [n, t[1], t[0]])      # [name, value(, text)]
     inner = [s for s in L['seps'] if s != ''] if not L['glue'] else L['seps']
     outer = L['seps'] + ['']
     seps = [rng.choice(outer)]
@@ -101,19 +144,56 @@ def render(lex, names, variant):
 
 def make_text(toks, seps):
     out = [seps[0]]
-    for i, (_, text) in enumerate(toks):
-        out.append(text)
+    for i, t in enumerate(toks):
+        out.append(t[-1])
         out.append(seps[i + 1])
     return ''.join(out)
 
 
+def spec_tokens(lex, text):
+    """Reference tokenizer written from the constructor's documentation (not from its code):
+    the pattern is matched repeatedly; the token value is the text of the named group that matched;
+    the token name is that group's name, replaced by its synonym if it has one
+    (synonyms = {name_of_re_pattern: name_of_token}); a (token name, value) pair listed in `keywords`
+    is reported as the token the entry names (keywords = {(token_name, value): token_name});
+    tokens named in skip_tokens (default SPACE, COMMENT) are dropped.  -> [(name, value)]"""
+    L = LEXICONS[lex]
+    kw = lexicon_kwargs(lex)
+    syn = kw.get('synonyms', {})
+    keywords = kw.get('keywords', {})
+    skip = kw.get('skip_tokens', {'SPACE', 'COMMENT'})
+    rx = re.compile(L['tokenizer'], re.VERBOSE)
+    out = []
+    for line in text.split('\n'):        # the text is tokenized line by line: a line break is no token
+        line = line.rstrip()             # and ends a token; white space at the end of a line is no token
+        pos = 0
+        while pos < len(line):
+            m = rx.match(line, pos)
+            if m is None or m.end() == pos:
+                raise ValueError(f"lexicon {lex!r}: no token at {pos} of line {line!r} of {text!r}")
+            group = m.lastgroup
+            value = m.group(group)
+            name = syn.get(group, group)
+            name = keywords.get((name, value), name)
+            if name not in skip:
+                out.append((name, value))
+            pos = m.end()
+    return out
+
+
 def all_inputs(lex, terms, maxlen):
-    """every token-name string of length <= maxlen over `terms`, rendered"""
+    """every token-name string of length <= maxlen over `terms`, rendered.  The rendered text is
+    cross-checked against the reference tokenizer: 'the expected tokens are known by construction'
+    is a property of this harness, a mismatch is an error of the harness (raises)."""
     res = []
     i = 0
     for n in range(maxlen + 1):
         for names in itertools.product(terms, repeat=n):
             toks, seps = render(lex, names, i)
+            text = make_text(toks, seps)
+            if spec_tokens(lex, text) != [(t[0], t[1]) for t in toks]:
+                raise AssertionError(f"harness error: lexicon {lex!r}: text {text!r} rendered from {toks!r} "
+                                     f"has the reference tokens {spec_tokens(lex, text)!r}")
             res.append((toks, seps))
             i += 1
     return res
@@ -364,4 +444,29 @@ def build_plan(tier, seed):
     r2 = random.Random(seed * 7777 + 5)
     for _ in range(nrand):
         plan.append(random_grammar(r2))
+    # family 'kwonsyn' (appended, so that the lexicon assignment of the entries above is unchanged): grammars
+    # of the families above under the tokenizer configurations in which a keyword entry is keyed by a synonym
+    # name; the 5th element of an entry is the lexicon.  Both readings of a keyword text (keyword / plain token)
+    # are terminals of every grammar, so the exhaustive families contain the grammars that accept both.
+    r3 = random.Random(seed * 424243 + 11)
+    n0 = len(plan)
+
+    def take_kw(gen, frac, lexicons=KWONSYN_LEXICONS):
+        for g in gen:
+            for lex in lexicons:
+                if frac >= 1.0 or r3.random() < frac:
+                    plan.append(('kwonsyn',) + tuple(g[1:]) + (lex,))
+
+    take_kw(fam_exh1(), 1.0)
+    take_kw(fam_exh2(), 0.01 if quick else 0.1)
+    take_kw(fam_prefix((2,)), 0.1 if quick else 0.5)
+    take_kw(fam_prefix((3,)), 0.005 if quick else 0.1)
+    take_kw(fam_rollback(), 0.005 if quick else 0.1)
+    take_kw(fam_nested3(), 0.002 if quick else 0.03)
+    take_kw(fam_seq(), 0.01 if quick else 0.1)
+    r4 = random.Random(seed * 9091 + 3)
+    for i in range(150 if quick else 3000):
+        g = random_grammar(r4)
+        plan.append(('kwonsyn',) + tuple(g[1:]) + (KWONSYN_LEXICONS[i % 2],))
+    assert all(len(g) == 4 for g in plan[:n0])
     return plan
